@@ -206,13 +206,21 @@ def to_tk(circuit):
         tk_circ.rename_units({new: old})
         tk_circ.rename_units({tmp: new})
 
+    def is_self_adjoint(box):
+        import numpy
+        array = numpy.array(box.array).reshape(2 ** len(box.dom), -1)
+        return numpy.allclose(array, array.conjugate().T)
+
     def add_gate(qubits, box, offset):
         i_qubits = [qubits[offset + j] for j in range(len(box.dom))]
         if isinstance(box, (Rx, Rz)):
             tk_circ.__getattribute__(box.name[:2])(2 * box.phase, *i_qubits)
         elif isinstance(box, CRz):
             tk_circ.__getattribute__(box.name[:3])(2 * box.phase, *i_qubits)
-        elif hasattr(tk_circ, box.name):
+        elif box.is_dagger and hasattr(tk_circ, box.name + "dg"):
+            tk_circ.__getattribute__(box.name + "dg")(*i_qubits)
+        elif hasattr(tk_circ, box.name)\
+                and (not box.is_dagger or is_self_adjoint(box)):
             tk_circ.__getattribute__(box.name)(*i_qubits)
         else:
             raise NotImplementedError
